@@ -50,6 +50,24 @@ def check(spec):
         e = rel(model(sp2, V[::-1]).current, m.current)
         if e > 1e-9:
             viol.append({'id': 'depends-on-source-order', 'observed': e})
+    # the same model object solved again with other voltages (and a load present) behaves like a fresh one
+    from mininec.mininec import Impedance_Load
+    def loaded(volts):
+        mm = model(spec, volts)
+        return mm
+    wires = [Wire(*w) for w in spec['wires']]
+    mo = Mininec(spec['f'], wires, media=[ideal_ground] if spec['ground'] else None)
+    for p, v in zip(spec['pulses'], V):
+        mo.register_source(Excitation(complex(v)), p)
+    mo.register_load(Impedance_Load(50 + 25j), spec['pulses'][0])
+    mo.compute()
+    first = np.array(mo.current)
+    for s_ in mo.sources:
+        s_.voltage = a * s_.voltage
+    mo.compute()
+    e = rel(mo.current, a * first)
+    if e > 1e-9:
+        viol.append({'id': 'second-solve-on-the-same-model-is-not-linear-in-the-voltages', 'observed': e})
     # printed source data
     blocks = m.source_data_as_mininec().split('PULSE')[1:]
     for s, blk in zip(m.sources, blocks):
